@@ -22,7 +22,11 @@ import (
 func init() {
 	register(&Workload{Name: "admission", Run: runAdmissionWL})
 	register(&Workload{Name: "conversion", Run: runConversionWL})
-	plans["C14"] = []Part{{WL: "admission", Cfg: "prop=C14", Quick: 250, Thor: 6000}}
+	plans["C14"] = []Part{
+		{WL: "admission", Cfg: "prop=C14", Quick: 250, Thor: 6000},
+		// real hook processes (bash): failing hooks exit non-zero or die from a signal after writing their response
+		{WL: "admission", Cfg: "prop=C14,real=1", Quick: 30, Thor: 600},
+	}
 	plans["C15"] = []Part{
 		{WL: "conversion", Cfg: "prop=C15", Quick: 200, Thor: 5000},
 		{WL: "conversion", Cfg: "prop=C15,steer=1", Quick: 200, Thor: 5000},
@@ -120,6 +124,10 @@ func runAdmissionWL(e *Env) {
 		hooks = append(hooks, h)
 	}
 	o := NewOpSim(e, hooks)
+	realHooks := e.CfgIs("real", "1")
+	if realHooks {
+		o.UseRealHooks() // real bash processes: exit codes and deaths by signal are the real thing
+	}
 	api := o.API
 	api.ApplyNamespace("default", nil)
 	// requests
@@ -204,6 +212,12 @@ func runAdmissionWL(e *Env) {
 		}
 		oc := r.Outcome
 		x.Fail = oc.Exit != 0
+		x.ExitCode = oc.Exit
+		if realHooks && oc.Exit != 0 && wl.Choose(2) == 0 {
+			// the process writes its outputs and then dies from a signal: not a zero exit
+			x.Signal = []string{"KILL", "TERM", "SEGV"}[wl.Choose(3)]
+			simrt.Count("fault:hook-killed-by-signal")
+		}
 		x.Admission = oc.Response
 		switch oc.BadOther {
 		case "metrics":
